@@ -36,12 +36,17 @@ NumVal(v) == CASE v = "0" -> 0 [] v = "1" -> 1 [] v = "2" -> 2 [] v = "3" -> 3 [
 
 IsNum(v) == v \in {"0", "1", "2", "3"}
 
-\* value of identifier m inside an #if expression: undefined identifiers count as 0
+\* value of identifier m inside an #if expression: undefined identifiers count as 0; a macro whose
+\* value is "m:<other>" is defined as that other identifier and is expanded again (rescanning)
 \* result: [v : Nat, err : BOOLEAN]   err: the expression is not a valid constant expression
-MacroNum(defs, m) ==
-  IF defs[m] = "U" THEN [v |-> 0, err |-> FALSE]
+RECURSIVE MacroNumR(_, _, _)
+MacroNumR(defs, m, fuel) ==
+  IF m \notin DOMAIN defs \/ defs[m] = "U" THEN [v |-> 0, err |-> FALSE]
   ELSE IF IsNum(defs[m]) THEN [v |-> NumVal(defs[m]), err |-> FALSE]
+  ELSE IF Len(defs[m]) > 2 /\ SubSeq(defs[m], 1, 2) = "m:" /\ fuel > 0
+       THEN MacroNumR(defs, SubSeq(defs[m], 3, Len(defs[m])), fuel - 1)
   ELSE [v |-> 0, err |-> TRUE]      \* empty or header-name value: "#if " with no/ill expression
+MacroNum(defs, m) == MacroNumR(defs, m, 4)
 
 \* Truth of a condition.  [v : BOOLEAN, err : BOOLEAN]
 Truth(c, defs) ==
